@@ -11,13 +11,13 @@ RULE = ("E-INPUT: (A) date ladder: start dates = 28th..31st and 1st of every mon
         "(0, 1 ms .. 150 y) x value type {datetime, date, datetime with microseconds} x n in {1,2,3} (sorted and unsorted), with options omitted / {} / "
         "{'direction': d} in rotation, both back-ends; (B) option sweep: 12 dataset shapes (single datum, equal times, ints, "
         "floats, dates, datetimes, bare times, unsorted) x option form {omitted, empty, partial, full} x 4 directions x 3 "
-        "algorithms x 5 bounds (incl. a zero-width band) x tick display x 2 back-ends, plus export to a file (bare name and path) compared with the returned text; (C, thorough) 200/500/1000 labels with conflict clusters of "
+        "algorithms x 5 bounds (incl. a zero-width band) x tick display x 2 back-ends, plus export to a file (bare name and path) compared with the returned text; records that carry other fields (a lock, a generator, an open stream, a reference to themselves, a 500-record chain of references to the predecessor); rows of 300 and 700 exactly touching labels; (C, thorough) 200/500/1000 labels with conflict clusters of "
         "1..200 labels, and one probe at 250. Oracle: export returns within the horizon without raising, the document parses, "
         "one dot/link/box per datum, a degenerate domain puts every dot at axis position 0. Non-trivial: every case (each is a "
         "distinct documented input shape); separately counted: degenerate domains, month-end spans, sub-second spans.")
 ASSUMPTIONS = ["numeric times are accompanied by an explicit LinearScale() (documented usage; the library default is a time scale)",
                "explicit widths only (no LaTeX in the image)", "clusters above 200 labels are outside the claim (known finding)"]
-REQUIRED_COUNTERS = ("exports", "degenerate", "options_none", "subsecond_spans", "month_end_starts", "file_exports")
+REQUIRED_COUNTERS = ("exports", "degenerate", "options_none", "subsecond_spans", "month_end_starts", "file_exports", "records_with_other_fields")
 
 D = 86400000
 SPANS = [0, 1, 7, 9, 10, 1000, 90000, 3600000, 11 * 3600000, D, 3 * D, 10 * D, 31 * D, 45 * D, 200 * D, 366 * D, 1826 * D, 14610 * D, 54787 * D]
@@ -113,8 +113,39 @@ def degenerate(data):
     return len({draw.as_number(draw.to_instant(d["time"], _dt.date(2020, 1, 1))) for d in data}) < 2
 
 
+def attach_payload(data, kind):
+    """Other fields in the records (the README: 'other data can be incorporated in the dict', for textFn and colour
+    functions): values that cannot be copied or pickled, and records that refer to each other."""
+    import threading
+    if kind == "lock":
+        for d in data:
+            d["resource"] = threading.Lock()
+    elif kind == "generator":
+        for d in data:
+            d["more"] = (x for x in (1, 2, 3))
+    elif kind == "stream":
+        import sys
+        for d in data:
+            d["log"] = sys.stderr
+    elif kind == "chain":
+        data.reverse()  # newest first; every record refers to the one before it in time
+        for a, b in zip(data, data[1:]):
+            a["previous"] = b
+    elif kind == "self":
+        for d in data:
+            d["self"] = d
+    return data
+
+
+PAYLOADS = ("lock", "generator", "stream", "chain", "self")
+
+
 def judge(case, acc=None):
     data = copy.deepcopy(case["data"])
+    if case.get("payload"):
+        data = attach_payload(data, case["payload"])
+        if acc is not None:
+            acc.counters["records_with_other_fields"] += 1
     backend = case["backend"]
     if case["opt"][0] == "big":
         form, direction = "full", "up"
@@ -188,6 +219,9 @@ def judge_file(case):
 def big_data(n, c):
     """n labels in conflict clusters of c labels each: the labels of a cluster share one instant, clusters are far
     enough apart (in pixels: the axis is as long as the data, scale factor 1) not to touch each other."""
+    if c == 0:  # one row of labels that touch exactly: pitch = width + padding + spacing, nobody has to move
+        data = [{"time": float(20 + 19 * i), "width": 12} for i in range(n)]
+        return data, float(40 + 19 * (n - 1))
     data = []
     pitch = c * 20 + 40  # a label needs 12 + 4 padding + 3 spacing = 19
     off = c * 10 + 20    # room for half a cluster before the first instant (positions are bounded below by 0)
@@ -218,6 +252,10 @@ def plan(tier, seed):
                 shards.append({"kind": "big", "n": nn, "c": c})
     shards.append({"kind": "files"})
     shards.append({"kind": "big", "n": 300, "c": 250})  # the known finding probe
+    for nn in (300, 700):
+        shards.append({"kind": "big", "n": nn, "c": 0})  # rows of exactly touching labels (conflict clusters of size 1)
+    shards.append({"kind": "big", "n": 500, "c": 1, "payload": "chain"})  # records that refer to their predecessor
+    shards.append({"kind": "payload"})
     return shards
 
 
@@ -286,11 +324,25 @@ def run_shard(shard):
                     acc.counters["file_exports"] += 1
                     if bad:
                         acc.violation(case, bad[0], bad[1], order=(1, 900 + shi, 0))
+    elif shard["kind"] == "payload":
+        for shi, (kind, data) in enumerate(shapes()):
+            for pi, payload in enumerate(PAYLOADS):
+                for backend in ("svg", "tex"):
+                    case = {"kind": kind, "data": data, "backend": backend, "opt": ["full", dc.DIRECTIONS[(shi + pi) % 4], "overlap", 0, True],
+                            "payload": payload}
+                    bad = judge(case, acc)
+                    acc.evals += 1
+                    acc.states += 1
+                    acc.trans += 1
+                    if bad:
+                        acc.violation(case, bad[0] + ":payload", bad[1] + " [records carry a %s field]" % payload, order=(1, 950 + shi, pi))
     else:
         n, c = shard["n"], shard["c"]
         for backend in ("svg", "tex"):
             data, length = big_data(n, c)
             case = {"kind": "lin", "data": data, "backend": backend, "opt": ["big", length], "budget": 600.0}
+            if shard.get("payload"):
+                case["payload"] = shard["payload"]
             bad = judge(case, acc)
             acc.evals += 1
             acc.states += 1
@@ -298,7 +350,7 @@ def run_shard(shard):
             acc.counters["large_cases"] += 1
             if bad:
                 key = bad[0]
-                small = {"kind": "big", "n": n, "c": c, "backend": backend}
+                small = {"kind": "big", "n": n, "c": c, "backend": backend, "payload": shard.get("payload")}
                 if c > 200 and key == "EXC:RecursionError":
                     key = "cluster>200:RecursionError"
                 acc.violation(small, key, "%d labels with clusters of %d: %s" % (n, c, bad[1]), order=(2, c, n))
@@ -313,13 +365,18 @@ def replay(case):
     if case.get("kind") == "big":
         data, length = big_data(case["n"], case["c"])
         full = {"kind": "lin", "data": data, "backend": case["backend"], "opt": ["big", length], "budget": 600.0}
+        if case.get("payload"):
+            full["payload"] = case["payload"]
         bad = judge(full)
         if bad and case["c"] > 200 and bad[0] == "EXC:RecursionError":
             return "cluster>200:RecursionError", bad[1]
         return bad
     if case.get("file"):
         return judge_file(case)
-    return judge(case)
+    bad = judge(case)
+    if bad and case.get("payload"):
+        return bad[0] + ":payload", bad[1]
+    return bad
 
 
 def snippet(case):
